@@ -909,6 +909,16 @@ def build_cases(ctx, quick):
             sizes = BOUNDARY_N_THOROUGH if meth in ("pca", "rp") else [255, 256, 257, 512]
         for N in sizes:
             generated += variants(rng, gen_boundary_emb(rng, meth, N), 3, 2)
+    # public API at boundary DIMENSIONS (wide data: inner products of length 7..33), PCA and RandomProjection
+    for meth in ("pca", "rp"):
+        for D in (rng.sample(BOUNDARY_D, 2) if quick else BOUNDARY_D):
+            N = rng.choice([8, 12, 16])
+            style = rng.choice(["int", "dyadic", "generic"])
+            X = gen_matrix(rng, N, D, style)
+            Q, combos = gen_queries(rng, X, 1, 2)
+            c = {"kind": "EMB", "method": meth, "solver": "dense", "N": N, "D": D, "d": rng.randint(1, 3), "k": 5, "X": X,
+                 "Q": Q, "combos": combos, "style": style, "boundary": True}
+            generated += variants(rng, c, 2, 2)
     for c in generated:
         key = hist_key(c)
         bump(hist, key)
